@@ -19,6 +19,7 @@ import (
 
 	"verifharness/internal/gen"
 	"verifharness/internal/pool"
+	"verifharness/internal/scratch"
 )
 
 func init() { commands["C13"] = runC13 }
@@ -121,11 +122,11 @@ func runC13(c runCfg) error {
 		pool.Serve(c13Worker(c.Out))
 		return nil
 	}
-	scratch, err := os.MkdirTemp(c.Out, "scratch")
+	scratchDir, err := os.MkdirTemp(c.Out, "scratch")
 	if err != nil {
 		return err
 	}
-	defer os.RemoveAll(scratch)
+	defer os.RemoveAll(scratchDir)
 
 	var lines []string
 	kinds := map[string]int{}
@@ -254,9 +255,79 @@ func runC13(c runCfg) error {
 		_ = exhaustive
 	}
 
-	impl, err := pool.Map([]string{"C13", "-worker", "-out", scratch}, lines, 16)
+	impl, err := pool.Map([]string{"C13", "-worker", "-out", scratchDir}, lines, 16)
 	if err != nil {
 		return err
+	}
+	// served half: GET <base>/<name> on compiled packages, 0..3 middlewares,
+	// spec-file handler installed or not
+	if c.Cases == "" {
+		contents := []string{c13Doc, strings.ReplaceAll(c13Doc, "\n", "\r\n"), "a\\b", "`\"\\\n\r$a", "{\"openapi\":\"3.0.0\",\"x\":\"\\t\"}", "x\ny`z`\n"}
+		if c.Thorough {
+			for i := 0; i < 40 && i < len(lines); i++ {
+				f := strings.Fields(lines[(i*97)%len(lines)])
+				if f[1] == "enc" {
+					contents = append(contents, unhx(f[2]))
+				}
+			}
+		}
+		var pkgs []*scratch.Pkg
+		for i, ct := range contents {
+			base := []string{"", "/v1", "/api/"}[i%3]
+			pkgs = append(pkgs, &scratch.Pkg{Name: fmt.Sprintf("s%03d", i), Doc: []byte(c13Doc),
+				Opts: gen.Options{API: true, DoNotEdit: true, SpecRaw: []byte(ct), BasePath: base, SpecName: "openapi.yaml"}})
+		}
+		root, err := os.MkdirTemp(c.Out, "mod")
+		if err != nil {
+			return err
+		}
+		defer os.RemoveAll(root)
+		m, err := scratch.New(root, pkgs)
+		if err != nil {
+			return err
+		}
+		m.AddDrivers()
+		if err := m.Build(false); err != nil {
+			return err
+		}
+		var send, slines []string
+		for i, p := range pkgs {
+			if !p.OK() {
+				slines = append(slines, fmt.Sprintf("C13 srv %s 0 1", hx(contents[i])))
+				send = append(send, "")
+				continue
+			}
+			base := strings.TrimRight(p.Opts.BasePath, "/")
+			for mw := 0; mw <= 3; mw++ {
+				for sf := 0; sf <= 1; sf++ {
+					slines = append(slines, fmt.Sprintf("C13 srv %s %d %d", hx(contents[i]), mw, sf))
+					send = append(send, fmt.Sprintf("%s REQ mw=%d,sf=%d GET %s - -", p.Name, mw, sf, hx(base+"/openapi.yaml")))
+				}
+			}
+		}
+		res, err := m.Run(send)
+		m.Close()
+		if err != nil {
+			return err
+		}
+		for i, r := range res {
+			kv := map[string]string{}
+			for _, t := range strings.Fields(r) {
+				if j := strings.Index(t, "="); j > 0 {
+					kv[t[:j]] = t[j+1:]
+				}
+			}
+			b := kv["body"]
+			if b == "" {
+				b = "-"
+			}
+			if kv["status"] == "404" {
+				b = "-"
+			}
+			lines = append(lines, slines[i])
+			impl = append(impl, "impl="+b+"|"+kv["trace"])
+			kinds["srv"]++
+		}
 	}
 	if err := os.WriteFile(filepath.Join(c.Out, "cases.txt"), []byte(strings.Join(lines, "\n")+"\n"), 0o644); err != nil {
 		return err
